@@ -37,9 +37,21 @@ fn main() {
         }
         "worker" => worker(&args[2..]),
         "replay" => {
+            let text = match std::fs::read_to_string(&args[2]) {
+                Ok(t) => t,
+                Err(e) => {
+                    eprintln!("harness error: cannot read {}: {e}", args[2]);
+                    std::process::exit(2);
+                }
+            };
+            let file: replay::ReplayFile = match serde_json::from_str(&text) {
+                Ok(f) => f,
+                Err(e) => {
+                    eprintln!("harness error: cannot parse {}: {e}", args[2]);
+                    std::process::exit(2);
+                }
+            };
             work::install_panic_hook();
-            let text = std::fs::read_to_string(&args[2]).expect("read replay file");
-            let file: replay::ReplayFile = serde_json::from_str(&text).expect("parse replay file");
             let (hit, hash) = replay::replay(&file);
             match hit {
                 Some(f) => {
